@@ -382,6 +382,17 @@ func Run(c *vk.Ctx) {
 			c.Finish()
 			return
 		}
+		var ni NilInstCase
+		c.LoadReplay(&ni)
+		if ni.NilInstance {
+			f := runNilInstance(ni)
+			fmt.Printf("replay nil instance %+v\nresult: %s\n", ni, f)
+			if f != "" {
+				c.Violate("replay", f, ni)
+			}
+			c.Finish()
+			return
+		}
 		var dc DupCase
 		c.LoadReplay(&dc)
 		if dc.Dup {
